@@ -88,7 +88,7 @@ def build_map(ctx, prefix, values, mandatory, allow_absent=True):
         info[k] = (p, dict(zip(vals, bs)), vnode, pnode)
         from pyvc.sym import TERM_REG
 
-        TERM_REG[v.get_id()] = vnode
+        TERM_REG[v.get_id()] = (vnode, v)
         ctx.st.ensure_defs(bs + ([p] if pnode is not True else []))
     m = SMap(dom, val, None, prefix)
     m.info = info
@@ -142,22 +142,62 @@ def within(err):
 
 def _pred(r):
     """result of a lifted predicate -> z3 Boolean"""
+    from pyvc import fd
+    from pyvc.sym import bool_of_node
+
     if isinstance(r, SBool):
         return r.z
+    if isinstance(r, fd.Node):
+        return bool_of_node(r)
     return z3.BoolVal(bool(r))
+
+
+def _match(value, spec, key_a, window, ok):
+    """
+    Boolean node: ok(a, b) for the co-occurring leaves; candidates are found by numeric
+    proximity (bisect) instead of testing all pairs.  key_a(a) -> Fraction or None;
+    window(a) -> (lo, hi) range of specification values that can match.
+    """
+    import bisect
+    from pyvc import fd
+
+    av = fd.values_of(value)
+    bv = fd.values_of(spec)
+    nums = []
+    for j, b in enumerate(bv):
+        x = getattr(b, "x", b)
+        if x is None:
+            continue
+        nums.append((Fraction(x), j))
+    nums.sort()
+    keys = [t[0] for t in nums]
+    nones = [j for j, b in enumerate(bv) if getattr(b, "x", b) is None]
+    pairs = []
+    for i, a in enumerate(av):
+        if a is None:
+            pairs.extend((i, j) for j in nones)
+            continue
+        w = window(a)
+        if w is None:
+            continue
+        lo, hi = w
+        k = bisect.bisect_left(keys, lo)
+        while k < len(keys) and keys[k] <= hi:
+            j = nums[k][1]
+            if ok(a, bv[j]):
+                pairs.append((i, j))
+            k += 1
+    return _pred(fd.relation(value, spec, pairs))
 
 
 def di_matches(value, spec, max_scale=None, err=None, strict_zero=False):
     """
-    z3 Boolean (a guard of a finite-domain predicate node): the code's value (DI leaves) agrees
-    with the specification value (Fraction leaves): equal and exact (scale <= max_scale) or
-    enclosed within err of it.
+    the code's value (DI leaves) agrees with the specification value (Fraction leaves): equal
+    and exact (scale <= max_scale, and +0 when strict_zero) or enclosed within err of it
     """
     e = None if err is None else Fraction(err)
 
     def ok(a, b):
-        if a is None or b is None:
-            return a is None and b is None
         if not isinstance(a, DI):
             return False
         b = Fraction(b)
@@ -171,7 +211,14 @@ def di_matches(value, spec, max_scale=None, err=None, strict_zero=False):
             return True
         return b - e <= a.lo and a.hi <= b + e
 
-    return _pred(fv_apply(ok, value, spec))
+    def window(a):
+        if not isinstance(a, DI):
+            return None
+        if e is None:
+            return (a.lo, a.hi)
+        return (a.hi - e, a.lo + e)
+
+    return _match(value, spec, None, window, ok)
 
 
 def values_equal(a, b):
@@ -183,14 +230,18 @@ def float_matches(value, spec):
     import struct
 
     def ok(a, b):
-        if a is None or b is None:
-            return a is None and b is None
         if not isinstance(a, float) or isinstance(a, bool):
             return False
         fb = Fraction(b)
         return struct.pack(">d", a) == struct.pack(">d", fb.numerator / fb.denominator)
 
-    return _pred(fv_apply(ok, value, spec))
+    def window(a):
+        if not isinstance(a, float) or a != a or a in (float("inf"), float("-inf")):
+            return None
+        f = Fraction(a)
+        return (f - Fraction(1, 10 ** 6), f + Fraction(1, 10 ** 6))
+
+    return _match(value, spec, None, window, ok)
 
 
 def map_equal(a_dom, a_val, b_dom, b_val, keys):
@@ -235,8 +286,15 @@ class Enc(object):
 
 
 def enc_matches(value, spec):
-    """every code leaf is admitted by the specification leaf it co-occurs with"""
-    return _pred(fv_apply(lambda a, b: isinstance(b, Enc) and b.admits(a), value, spec))
+    """every code leaf is admitted by the specification leaf (Enc) it co-occurs with"""
+
+    def window(a):
+        if not isinstance(a, DI):
+            return None
+        e = Fraction(1, 10 ** 12)
+        return (a.lo - e, a.hi + e)
+
+    return _match(value, spec, None, window, lambda a, b: isinstance(b, Enc) and b.admits(a))
 
 
 def enc_value(spec):
